@@ -54,6 +54,8 @@ THEOREMS = [
     "Typedpy.C18.locateZip_sound",
     "Typedpy.C18.sites_point_at_rejections",
     "Typedpy.C18.locate_sound_example",
+    "Typedpy.C18.firstBad_min",
+    "Typedpy.C18.locate_seqOf_first",
     "Typedpy.C18.all_alnum_fieldChars",
     "Typedpy.C18.derive_pre_alnum",
     "Typedpy.C18.derived_name_identOk",
